@@ -165,7 +165,7 @@ def units(tier, seed):
         for c in INNER:
             add('a.h1.v0=%s.leaf-leaf' % c, [LEAVES], [LEAVES], [([['v0']], [[c], SMALL])], {'k0': 0, 'k1': 0}, 200)
         # constants of different Python types that are == (1, 1.0, True) inside compounds; zero-argument compounds vs arity 1
-        MIX = ['int', 'T', 'fl', 'v0']
+        MIX = ['one', 'T', 'fl', 'v0']      # 1, True, 1.0 (all ==) and a variable
         add('a.F2-F2.mixed-constants', [['F2'], MIX], [['F2'], MIX], [], {'k0': 0, 'k3': 0}, 200)
         add('a.LP-LP.mixed-constants', [['LP'], MIX], [['LP'], MIX], [], {'k0': 0, 'k3': 0}, 200)
         ZER = ['F0', 'F1', 'v0', 'A']
